@@ -286,3 +286,20 @@ PROPS["C12"] = dict(
     rule="cases = (rotation form, unitary family, wavefunction kind, norb) transformations + back transformations; every case "
          "distinct by index",
 )
+
+PROPS["C17"] = dict(
+    level="proof",
+    technique="Lean 4 theorems (every charge-charge generator n_p n_q is diagonal with eigenvalue occ(p)occ(q); phases of "
+              "successive diagonal evolutions multiply; a Trotter step is the ordered fold of its factors) + correspondence "
+              "of every helper with Gamma(u) by exact minors / exact diagonal phases from the Lean Spec driver",
+    text="PARTIAL proof: the diagonal helpers and the sequencing are proved on the Spec; the Givens helpers equal Gamma(u) only "
+         "through OpenFermion's givens_decomposition_square (external) and multiplicativity of Gamma (see C12), so they are "
+         "decided numerically: evolve_fqe_givens, per-sector and unrestricted variants vs Gamma(u) (generic, real, permutation, "
+         "near-identity unitaries), all charge-charge helpers and evolve_fqe_diagonal_coulomb vs exp(-i t sum v n n) with "
+         "eigenvalues from Spec, a double-factorised Trotter step vs the ordered product, and LowRankTrotter's data through "
+         "second-order convergence of a Trotter step to expm of the exact H.",
+    note="Lean kernel + Mathlib ring; tolerance 1e-7 for Givens (angles below 1e-8 are skipped by the helper), 1e-9 for the "
+         "diagonal helpers; OpenFermion's low-rank routines are called, not verified.",
+    design_ref="DESIGN.md §5 C17",
+    rule="cases = (helper, unitary family / v matrix, wavefunction, norb, t) runs; every case distinct by index",
+)
